@@ -2,7 +2,7 @@
   Assembly of C16 / C09, part 6: the fillers' contract as they actually keep it.
 
   `ShiftOk r`: no SHIFT, a SHIFT of at most 365 calendar days either way, or one of at most 250 business days
-  either way.  With `KindOk` (RrAsm1) the seven per-filler theorems combine to `fill_contract`;
+  either way.  The seven per-filler theorems combine to `fill_contract` (proviso `ShiftOk` only);
   `fill_total` says every filler call returns; `fill_kind` hands `KindOk` on to the next seed.
 -/
 import Echse.Lemmas.RrAsm5
